@@ -96,7 +96,7 @@ func ref_p2sh_sigops(scriptSig []byte) (n uint, afterReturn bool) {
 
 // C04: legacy signature-operation counting (both accuracy modes) equals Core's for every script of the length bound.
 func H_C04_SigOpCount() {
-	maxL := 5 + 3*zzverif.Tier()
+	maxL := 5 + zzverif.Tier()
 	L := zzverif.Len("len", 0, maxL)
 	scr := zzverif.Bytes("script", L)
 	acc := zzverif.Bool("accurate")
@@ -111,7 +111,7 @@ func H_C04_SigOpCount() {
 
 // C04: P2SH signature-operation counting: the redeem script is the last push of a push-only scriptSig.
 func H_C04_SigOpCountP2SH() {
-	maxL := 5 + 2*zzverif.Tier()
+	maxL := 5 + zzverif.Tier()
 	L := zzverif.Len("len", 0, maxL)
 	scr := zzverif.Bytes("scriptSig", L)
 	want, ar := ref_p2sh_sigops(scr)
